@@ -510,23 +510,76 @@ def suffixes {α : Type} : List α → List (List α)
   | [] => [[]]
   | x :: xs => (x :: xs) :: suffixes xs
 
-/-- C08 for a client that joins a running stream at any tag (oracle for the HTTP-FLV /
-    WebSocket-FLV services and the FLV cache replay; the replay shape itself is property C02's
-    theorem): the bytes parse as FLV with the right header, and the tags are the configuration
-    prefix (metadata, video configuration, AAC configuration iff audio — timestamp 0) followed by
-    one tag per carried frame of some tail of the frame sequence, timestamps rebased either to
-    that tail's first frame (replayed GOP) or to the stream's time 0 (no cached GOP). -/
+/-- C08 for a client that joins a running stream at an unknown tag — the weak form of
+    `checkJoinedAt` below (which it follows from: `c08_joined_at_implies_joined`): the bytes parse
+    as FLV with the right header, and the tags are the configuration prefix (metadata, video
+    configuration, AAC configuration iff audio — timestamp 0) followed by one tag per carried
+    frame of some tail of the frame sequence, timestamps rebased to that tail's first frame
+    (replayed GOP), to the frame right before the tail (no cached GOP: the time of the join) or to
+    the stream's time 0 (joined before the first frame). -/
 def checkJoined (s : Src) (frames : List Frame) (bytes : Bytes) : Bool :=
   match parseFlv bytes with
   | none => false
   | some (h, tags) =>
     h.version = 1 && h.video && h.audio == s.aac &&
     (tags.isEmpty ||
-     (suffixes (frames.filter (carried s))).any fun fs =>
+     let cf := frames.filter (carried s)
+     (List.range (cf.length + 1)).any fun i =>
+       let fs := cf.drop i
        prefixThenMedia s 0 fs tags ||
        (match fs with
         | f :: _ => prefixThenMedia s (tagTimeMs f) fs tags
-        | [] => false))
+        | [] => false) ||
+       (match (cf.take i).getLast? with
+        | some l => prefixThenMedia s (tagTimeMs l) fs tags
+        | none => false))
+
+/-! ### joining at a known tag: exactly which frames, on which time line -/
+
+/-- a key frame of the stream: a video frame whose NAL unit is an IDR / IRAP picture -/
+def isKeyFrame (s : Src) (f : Frame) : Bool := f.mediaType = 0 && isKeyNal s.codec f.payload
+
+/-- the frames from the last key frame of the list on (`none`: it contains no key frame) -/
+def fromLastKey (s : Src) : List Frame → Option (List Frame)
+  | [] => none
+  | f :: fs =>
+    match fromLastKey s fs with
+    | some r => some r
+    | none => if isKeyFrame s f then some (f :: fs) else none
+
+/-- number of configuration tags in front of the media tags: metadata, video configuration, and
+    the AAC configuration iff the stream has AAC -/
+def prefixLen (s : Src) : Nat := if s.aac then 3 else 2
+
+/-- What a client that joins after `j` of the carried frames `fs` went out is owed, and the
+    origin of its time line ("rebased so the client's first tag is zero").  With GOP caching and a
+    key frame among the first `j` frames: every frame from the latest such key frame on, and the
+    time line starts at that key frame (its tag is stamped 0).  Otherwise: the frames from the
+    join point on, and the time line starts at the moment of the join — the time of the latest
+    frame that went out before it (the stream's time 0 when it joins before the first frame) —
+    so the client's first media tag is stamped with the distance to that frame, however old the
+    stream is. -/
+def joinView (s : Src) (gop : Bool) (fs : List Frame) (j : Nat) : Int × List Frame :=
+  match (if gop then fromLastKey s (fs.take j) else none) with
+  | some (g :: gs) => (tagTimeMs g, (g :: gs) ++ fs.drop j)
+  | _ => ((match (fs.take j).getLast? with | some l => tagTimeMs l | none => 0), fs.drop j)
+
+/-- C08 for a client that joins a running stream after the stream has written `k` tags (GOP
+    caching `gop`) — the join-point-exact form of `checkJoined`: the bytes parse as FLV with the
+    right header, and the tags are the configuration prefix (timestamp 0) followed by exactly one
+    tag per frame of `joinView` — nothing lost, nothing twice, nothing else — each carrying its
+    source frame, timestamps rebased to `joinView`'s origin and never wrapped.  Only a stream that
+    never carried a frame sends nothing after the header. -/
+def checkJoinedAt (s : Src) (frames : List Frame) (gop : Bool) (k : Nat) (bytes : Bytes) : Bool :=
+  match parseFlv bytes with
+  | none => false
+  | some (h, tags) =>
+    h.version = 1 && h.video && h.audio == s.aac &&
+    (match tags with
+     | [] => (frames.filter (carried s)).isEmpty
+     | ts =>
+       let v := joinView s gop (frames.filter (carried s)) (k - prefixLen s)
+       prefixThenMedia s v.1 v.2 ts)
 
 /-! ## the writer-level statement: any tag sequence handed to one client (joining at any tag) -/
 
